@@ -1,25 +1,3 @@
-def gen_repeated(tier, rng):
-    """an axis named twice: NumPy refuses the argument ("duplicate value in 'axis'"), the code does not look.  With keepdims the
-    loops of remove_dims / reduction_slices are indifferent to the repetition: the view is NumPy's result for the
-    de-duplicated list (theorem reduce_repeated_axes_keepdims; the oracle folds by the SET of axes).  Without keepdims
-    remove_dims writes past its result (model: UB) — not requested."""
-    R, E = (3, 3) if tier == 'quick' else (4, 3)
-    for s in shapes(R, E, min_rank=1):
-        nd, n = len(s), prod(s)
-        data = list(range(1, n + 1))
-        for t in range(2):
-            k = rng.randrange(nd)
-            axes = [k, k - nd] if t == 0 else [rng.randrange(nd) for _ in range(rng.randint(2, 3))] + [k, k]
-            rng.shuffle(axes)
-            for init in (None, 7):
-                kd = rng.choice(['ct', 'rt'])
-                oshape, ores = ref_reduce(f31, data, s, axes, True, init)
-                yield Case('reduce op=f31 shape=%s axis=%s keepdims=1 init=%s kd=%s ax=vec' % (fmt(s), fmt(axes), init, kd), 'h_c08',
-                           oracle=ans(oshape, ores), nontrivial=any(s[a % nd] > 1 for a in axes), tags=['reduce', 'repeated-axis', 'rank=%d' % nd])
-            yield Case('remove_dims shape=%s axis=%s keepdims=1' % (fmt(s), fmt(axes)), 'h_c08', oracle='ok ' + fmt(oshape),
-                       tags=['remove_dims', 'repeated-axis'])
-
-
 """C08 — reductions and accumulations fold exactly the addressed elements, in order.
 IMPL: view::reduce / view::accumulate (custom order-revealing functor and the named ufuncs), index::remove_dims,
 index::reduction_slices, sum/prod/amax/amin/mean/var/stddev/cumsum/cumprod/vector_norm/trace.
@@ -742,20 +720,24 @@ def gen_zero(tier, rng):
 
 def gen_repeated(tier, rng):
     """an axis named twice: NumPy refuses the argument ("duplicate value in 'axis'"), the code does not look.  With keepdims the
-    loops of remove_dims / reduction_slices are indifferent to the repetition, and IMPL must still be what the MODEL says
-    (off-domain: no oracle, dom=False); without keepdims remove_dims writes past its result (model: UB) — not requested."""
+    loops of remove_dims / reduction_slices are indifferent to the repetition: the view is NumPy's result for the
+    de-duplicated list (theorem reduce_repeated_axes_keepdims; the oracle folds by the SET of axes).  Without keepdims
+    remove_dims writes past its result (model: UB) — not requested."""
     R, E = (3, 3) if tier == 'quick' else (4, 3)
     for s in shapes(R, E, min_rank=1):
         nd, n = len(s), prod(s)
+        data = list(range(1, n + 1))
         for t in range(2):
             k = rng.randrange(nd)
             axes = [k, k - nd] if t == 0 else [rng.randrange(nd) for _ in range(rng.randint(2, 3))] + [k, k]
             rng.shuffle(axes)
             for init in (None, 7):
                 kd = rng.choice(['ct', 'rt'])
-                yield Case('reduce op=f31 shape=%s axis=%s keepdims=1 init=%s kd=%s ax=vec' % (fmt(s), fmt(axes), init, kd), 'h_c08', dom=False,
-                           nontrivial=any(s[a % nd] > 1 for a in axes), tags=['reduce', 'repeated-axis', 'rank=%d' % nd])
-            yield Case('remove_dims shape=%s axis=%s keepdims=1' % (fmt(s), fmt(axes)), 'h_c08', dom=False, tags=['remove_dims', 'repeated-axis'])
+                oshape, ores = ref_reduce(f31, data, s, axes, True, init)
+                yield Case('reduce op=f31 shape=%s axis=%s keepdims=1 init=%s kd=%s ax=vec' % (fmt(s), fmt(axes), init, kd), 'h_c08',
+                           oracle=ans(oshape, ores), nontrivial=any(s[a % nd] > 1 for a in axes), tags=['reduce', 'repeated-axis', 'rank=%d' % nd])
+            yield Case('remove_dims shape=%s axis=%s keepdims=1' % (fmt(s), fmt(axes)), 'h_c08', oracle='ok ' + fmt(oshape),
+                       tags=['remove_dims', 'repeated-axis'])
 
 
 _gen_f31 = gen
